@@ -16,6 +16,29 @@ VOC_ASSUMED = [
 
 HOOK_COMMITS = []
 
+# Clause ownership in shared Verus units: a labelled postcondition / assertion of a unit listed under several
+# properties that carries only some of them.  When it fails, the checks of the properties NOT named here print an
+# OTHER-PROPERTY note instead of a VIOLATION (their own property can still hold); the checks of the owners report it.
+# Deliberately short: only clauses whose reading is unambiguous; every other obligation of a shared unit is reported
+# under every property that lists the unit (DESIGN 10.7).
+CLAUSE_OWNERS = {
+    'vocoder': {
+        'pitch': ['C07', 'C11'],                          # the excitation runs with the period computed from lf0
+        'gain': ['C16', 'C02'],                           # every written sample is a filter output times the volume
+        'gain-sample-is-x-times-volume': ['C16', 'C02'],
+    },
+    'duration': {
+        'speed1': ['C08'],                                # speed == 1 leaves the rounded model durations
+        'scaled-total': ['C08'],                          # total = round(sum of means / speed)
+    },
+    'labels': {
+        'gap-fill': ['C09'],                              # missing times filled from the neighbours
+    },
+    'cond': {
+        'defaults-kept': ['C20'], 'header-rates': ['C20'], 'thresholds-and-gv': ['C20'], 'only-that-entry': ['C20'],
+    },
+}
+
 PENDING = 'not claimed yet in this revision: the contracts for this property are designed (DESIGN.md section 4) but not built'
 NOT_APPLICABLE = {
     'C03': 'quantifies over thread schedules and pairs of executions (2-safety); no pre/postcondition expresses it; Kani has no threads (DESIGN.md section 6)',
